@@ -118,6 +118,18 @@ func init() {
 			}
 			return nil
 		},
+		// vLemma(cond, name): a fact proved universally by the harness called
+		// name (checked by the driver to exist and pass in the same run), added
+		// to the path condition to bridge real-code terms and oracle terms.
+		"vLemma": func(x *Exec, _ *ssa.Function, a []Value) Value {
+			name, _ := x.concreteStr(a[1].(Str))
+			if x.Lemmas == nil {
+				x.Lemmas = map[string]bool{}
+			}
+			x.Lemmas[name] = true
+			x.assume(a[0].(*smt.Term))
+			return nil
+		},
 		"vAssert": func(x *Exec, _ *ssa.Function, a []Value) Value {
 			lbl, _ := x.concreteStr(a[1].(Str))
 			x.Assert(a[0].(*smt.Term), lbl)
